@@ -43,6 +43,24 @@ for i in $(seq 0 $((WORKERS-1))); do
 done
 wait
 T1=$(date +%s)
+if [ -n "${PEGSIM_SURVEY:-}" ]; then
+  # development aid: list every distinct violation signature found, no confirmation, no evidence
+  python3 - "$SCR" <<'PY'
+import glob, json, sys
+sigs = {}
+for p in glob.glob(sys.argv[1] + '/out-*.json'):
+    r = json.load(open(p))
+    for v in r.get('violations') or []:
+        sigs.setdefault(v['signature'], v['detail'])
+    for e in r.get('infra_errors') or []:
+        print('INFRA', e[:1500])
+for s, d in sorted(sigs.items()):
+    print('SIG', s)
+    print('    ', d[:1200].replace('\n', '\n     '))
+print('distinct signatures:', len(sigs))
+PY
+  exit 0
+fi
 python3 $VERIF/agg.py check "$PROP" "$TIER" "$SEED" "$SCR" $((T1-T0))
 RC=$?
 if [ $RC -eq 3 ]; then
